@@ -31,11 +31,11 @@ import (
 //      at registration
 
 type c25Step struct {
-	Op    string   `json:"op"`             // append prog scan
-	File  int      `json:"file,omitempty"` // append: log file
-	Text  string   `json:"text,omitempty"` // append: raw bytes
-	Prog  string   `json:"prog,omitempty"` // prog: e b k
-	Edit  string   `json:"edit,omitempty"` // prog: v1 v2 same broken remove
+	Op   string `json:"op"`             // append prog scan
+	File int    `json:"file,omitempty"` // append: log file
+	Text string `json:"text,omitempty"` // append: raw bytes
+	Prog string `json:"prog,omitempty"` // prog: e b k
+	Edit string `json:"edit,omitempty"` // prog: v1 v2 same broken remove
 }
 
 type c25Case struct {
@@ -411,7 +411,6 @@ func must(err error) {
 		panic(err)
 	}
 }
-
 
 func c25RunRaw(raw json.RawMessage) *vstat.Failure {
 	c, err := vstat.JSON[c25Case](raw)
